@@ -1,7 +1,15 @@
 package atrest
 
 import (
+	"crypto"
 	"crypto/ecdh"
+	"crypto/ecdsa"
+	"crypto/elliptic"
+	"crypto/rand"
+	"crypto/rsa"
+	"crypto/sha256"
+	"encoding/base64"
+	"encoding/hex"
 	"math/big"
 
 	"google.golang.org/protobuf/proto"
@@ -54,6 +62,69 @@ type weakKey struct {
 	class   string // catalog class whose factories must refuse it
 	data    *tinkpb.KeyData
 	sibling string // catalog entry (same class, same key material kind) that may share the keyset
+	// public weak keys: sign makes a raw signature over data with the private half the harness holds (for jwt: over the
+	// signing input); it is how a SUCCESSFUL use of a verifier built from the weak key can be arranged
+	sign   func(data []byte) ([]byte, error)
+	jwtAlg string
+}
+
+// arranged wraps wk.sign into a complete valid input for the keyset-level verifier: output prefix + signature, or a
+// compact JWT (kid header for TINK keys) whose subject is the one classes.checkSubject would expect.
+func arranged(wk weakKey, pfx tinkpb.OutputPrefixType, id uint32) func(msg []byte) ([]byte, error) {
+	idb := []byte{byte(id >> 24), byte(id >> 16), byte(id >> 8), byte(id)}
+	if wk.jwtAlg == "" {
+		return func(msg []byte) ([]byte, error) {
+			sig, err := wk.sign(msg)
+			if err != nil {
+				return nil, err
+			}
+			if pfx == tinkpb.OutputPrefixType_TINK {
+				return append(append([]byte{0x01}, idb...), sig...), nil
+			}
+			return sig, nil
+		}
+	}
+	return func(msg []byte) ([]byte, error) {
+		hdr := `{"alg":"` + wk.jwtAlg + `"`
+		if pfx == tinkpb.OutputPrefixType_TINK {
+			hdr += `,"kid":"` + base64.RawURLEncoding.EncodeToString(idb) + `"`
+		}
+		hdr += "}"
+		in := base64.RawURLEncoding.EncodeToString([]byte(hdr)) + "." + base64.RawURLEncoding.EncodeToString([]byte(`{"sub":"m`+hex.EncodeToString(msg)+`"}`))
+		sig, err := wk.sign([]byte(in))
+		if err != nil {
+			return nil, err
+		}
+		return []byte(in + "." + base64.RawURLEncoding.EncodeToString(sig)), nil
+	}
+}
+
+func (f rsaFixed) goKey(e int) *rsa.PrivateKey {
+	k := &rsa.PrivateKey{PublicKey: rsa.PublicKey{N: hexInt(f.n), E: e}, D: hexInt(f.d), Primes: []*big.Int{hexInt(f.p), hexInt(f.q)}}
+	k.Precompute()
+	return k
+}
+
+func rsaSigner(k *rsa.PrivateKey, pss bool) func([]byte) ([]byte, error) {
+	return func(data []byte) ([]byte, error) {
+		d := sha256.Sum256(data)
+		if pss {
+			return rsa.SignPSS(rand.Reader, k, crypto.SHA256, d[:], &rsa.PSSOptions{SaltLength: 32, Hash: crypto.SHA256})
+		}
+		return rsa.SignPKCS1v15(nil, k, crypto.SHA256, d[:])
+	}
+}
+
+func ecdsaSigner(c elliptic.Curve, d []byte, h crypto.Hash) func([]byte) ([]byte, error) {
+	return func(data []byte) ([]byte, error) {
+		k, err := ecdsa.ParseRawPrivateKey(c, d)
+		if err != nil {
+			return nil, err
+		}
+		hh := h.New()
+		hh.Write(data)
+		return ecdsa.SignASN1(rand.Reader, k, hh.Sum(nil))
+	}
 }
 
 type rsaFixed struct{ n, p, q, d string }
@@ -216,6 +287,14 @@ func (w *world) weak(name string) weakKey {
 		pk := &rsapkcs1pb.RsaSsaPkcs1PublicKey{Params: &rsapkcs1pb.RsaSsaPkcs1Params{HashType: commonpb.HashType_SHA256}, N: r.n, E: r.e}
 		if name[9:12] == "pub" {
 			k.data = pub("RsaSsaPkcs1PublicKey", pk)
+			switch name {
+			case "rsapkcs1-pub-n1024":
+				k.sign = rsaSigner(rsa1024.goKey(65537), false)
+			case "rsapkcs1-pub-e65539":
+				k.sign = rsaSigner(rsa2048e65539.goKey(65539), false)
+			default:
+				k.sign = rsaSigner(rsa2048e3.goKey(3), false)
+			}
 		} else {
 			k.data = priv("RsaSsaPkcs1PrivateKey", &rsapkcs1pb.RsaSsaPkcs1PrivateKey{PublicKey: pk, D: r.d, P: r.p, Q: r.q, Dp: r.dp, Dq: r.dq, Crt: r.crt})
 			k.sibling = "signature/ed25519/k32/TINK"
@@ -236,6 +315,11 @@ func (w *world) weak(name string) weakKey {
 		pk := &rsapsspb.RsaSsaPssPublicKey{Params: &rsapsspb.RsaSsaPssParams{SigHash: commonpb.HashType_SHA256, Mgf1Hash: commonpb.HashType_SHA256, SaltLength: 32}, N: r.n, E: r.e}
 		if name[7:10] == "pub" {
 			k.data = pub("RsaSsaPssPublicKey", pk)
+			if name == "rsapss-pub-n1024" {
+				k.sign = rsaSigner(rsa1024.goKey(65537), true)
+			} else {
+				k.sign = rsaSigner(rsa2048e3.goKey(3), true)
+			}
 		} else {
 			k.data = priv("RsaSsaPssPrivateKey", &rsapsspb.RsaSsaPssPrivateKey{PublicKey: pk, D: r.d, P: r.p, Q: r.q, Dp: r.dp, Dq: r.dq, Crt: r.crt})
 			k.sibling = "signature/ed25519/k32/TINK"
@@ -246,6 +330,7 @@ func (w *world) weak(name string) weakKey {
 			r := rsa1024.parts(65537)
 			k.rule = ruleRSAMod
 			k.data = pub("JwtRsaSsaPkcs1PublicKey", &jwtrsapb.JwtRsaSsaPkcs1PublicKey{Algorithm: jwtrsapb.JwtRsaSsaPkcs1Algorithm_RS256, N: r.n, E: r.e})
+			k.sign, k.jwtAlg = rsaSigner(rsa1024.goKey(65537), false), "RS256"
 		} else {
 			r := rsa2048e3.parts(3)
 			k.rule = ruleRSAExp
@@ -260,6 +345,7 @@ func (w *world) weak(name string) weakKey {
 			r := rsa2048e3.parts(3)
 			k.rule = ruleRSAExp
 			k.data = pub("JwtRsaSsaPssPublicKey", &jwtpsspb.JwtRsaSsaPssPublicKey{Algorithm: jwtpsspb.JwtRsaSsaPssAlgorithm_PS256, N: r.n, E: r.e})
+			k.sign, k.jwtAlg = rsaSigner(rsa2048e3.goKey(3), true), "PS256"
 		} else {
 			r := rsa1024.parts(65537)
 			k.rule = ruleRSAMod
@@ -281,6 +367,11 @@ func (w *world) weak(name string) weakKey {
 		pk := &ecdsapb.EcdsaPublicKey{Params: &ecdsapb.EcdsaParams{HashType: hash, Curve: cpb, Encoding: ecdsapb.EcdsaSignatureEncoding_DER}, X: x, Y: y}
 		if name[len(name)-3:] == "pub" {
 			k.data = pub("EcdsaPublicKey", pk)
+			if size == 48 {
+				k.sign = ecdsaSigner(elliptic.P384(), d, crypto.SHA256)
+			} else {
+				k.sign = ecdsaSigner(elliptic.P521(), d, crypto.SHA256)
+			}
 		} else {
 			k.data = priv("EcdsaPrivateKey", &ecdsapb.EcdsaPrivateKey{PublicKey: pk, KeyValue: d})
 			k.sibling = "signature/ed25519/k32/TINK"
@@ -322,7 +413,7 @@ func (w *world) weak(name string) weakKey {
 // so that they land exactly; all of them are also reachable by medium faults.
 
 var structEdits = []string{"struct-primary-disabled", "struct-primary-destroyed", "struct-unknown-status", "struct-unknown-prefix", "struct-duplicate-id",
-	"struct-primary-absent", "struct-nil-keydata", "struct-no-keys", "struct-version-1", "struct-material-type", "struct-empty-value", "struct-all-disabled"}
+	"struct-primary-absent", "struct-nil-keydata", "struct-no-keys", "struct-version-1", "struct-material-type", "struct-empty-value", "struct-all-disabled", "struct-prefix-type-5"}
 
 // applyStruct edits ks in place; ok=false if the edit cannot apply.
 func (w *world) applyStruct(kind string, ks *tinkpb.Keyset) bool {
@@ -356,7 +447,10 @@ func (w *world) applyStruct(kind string, ks *tinkpb.Keyset) bool {
 	case "struct-unknown-status":
 		k.Status = tinkpb.KeyStatusType(rapid.SampledFrom([]int32{0, 4, 5, 127, 128, 1 << 20}).Draw(t, "structStatus"))
 	case "struct-unknown-prefix":
-		k.OutputPrefixType = tinkpb.OutputPrefixType(rapid.SampledFrom([]int32{0, 5, 6, 127, 128, 1 << 20}).Draw(t, "structPrefix"))
+		k.OutputPrefixType = tinkpb.OutputPrefixType(rapid.SampledFrom([]int32{0, 6, 127, 128, 1 << 20}).Draw(t, "structPrefix"))
+	case "struct-prefix-type-5":
+		// WITH_ID_REQUIREMENT: declared, emitted by the ML-DSA serializer; a reader may accept or reject it
+		k.OutputPrefixType = tinkpb.OutputPrefixType_WITH_ID_REQUIREMENT
 	case "struct-duplicate-id":
 		if len(ks.Key) < 2 {
 			// the same key stored twice
